@@ -91,6 +91,12 @@ def parse_vwsc_data(fdata: bytes) -> List[Any]:
         channelSize = struct.unpack(">h", fdata[idx:idx+2])[0]
         idx = idx + 2
         logging.debug("channelSize: %d", channelSize)
+        if channelSize < 2:
+            # The size includes its own two bytes: anything smaller can not
+            # advance (0 re-reads the same position forever)
+            msg = vsprintf('Bad VWSC frame record size: %d', channelSize)
+            raise ValueError(msg)
+        
         if channelSize == 2:
             logging.debug('This frame is equals to the previous one!')
             last_idx = len(vwsc_data) - 1
